@@ -7,6 +7,7 @@
 #
 # @author Davide Brunato <brunato@sissa.it>
 #
+import re
 from decimal import Decimal
 from math import isinf, isnan
 from typing import Optional, SupportsInt, SupportsFloat, TYPE_CHECKING, Union
@@ -150,7 +151,9 @@ def parse_target_namespace(validator: Union[SchemaType, 'XsdComponent']) -> str:
 
 def decimal_validator(value: Union[Decimal, int, float, str]) -> None:
     try:
-        if not isinstance(value, (Decimal, float)):
+        if isinstance(value, str) and _DECIMAL_PATTERN.fullmatch(value) is None:
+            raise ValueError()
+        elif not isinstance(value, (Decimal, float)):
             datatypes.DecimalProxy.validate(value)
         elif isinf(value) or isnan(value):
             raise ValueError()
@@ -296,3 +299,22 @@ def python_to_float(value: Union[SupportsFloat, str]) -> str:
 
 def python_to_int(value: Union[SupportsInt, str]) -> str:
     return str(int(value))
+
+
+# Lexical spaces of xs:integer and xs:decimal: only ASCII digits, no separators or inner spaces
+_INTEGER_PATTERN = re.compile(r'[ \t\n\r]*[+-]?[0-9]+[ \t\n\r]*')
+_DECIMAL_PATTERN = re.compile(r'[ \t\n\r]*[+-]?(?:[0-9]+(?:\.[0-9]*)?|\.[0-9]+)[ \t\n\r]*')
+
+
+def integer_to_python(value: Union[SupportsInt, str]) -> int:
+    """Like int(), but for strings admits only the lexical space of xs:integer."""
+    if isinstance(value, str) and _INTEGER_PATTERN.fullmatch(value) is None:
+        raise ValueError(f"invalid literal for int() with base 10: {value!r}")
+    return int(value)
+
+
+def decimal_to_python(value: Union[Decimal, int, float, str]) -> Decimal:
+    """Like DecimalProxy(), but for strings admits only the lexical space of xs:decimal."""
+    if isinstance(value, str) and _DECIMAL_PATTERN.fullmatch(value) is None:
+        raise ValueError(f"invalid value {value!r} for xs:decimal")
+    return datatypes.DecimalProxy(value)  # type: ignore[return-value]
